@@ -124,7 +124,7 @@ def mutants(argv):
     base = os.path.join(env.scratch_base(), 'pipesim-mut-%d' % os.getpid())
     results = []
     try:
-        props = sorted(set(m['property'] for m in load_mutants()))
+        props = sorted(set(m['property'] for m in load_mutants() if m['property'] != 'BENIGN'))
         if '--skip-clean' not in argv:
             copy = make_copy(os.path.join(base, 'clean'))
             for pid in props:
@@ -137,6 +137,20 @@ def mutants(argv):
             shutil.rmtree(copy, ignore_errors=True)
         for m in load_mutants():
             if only and m['property'] not in only and m['name'] not in only:
+                continue
+            if m['property'] == 'BENIGN':
+                # a property-preserving change: NO check may raise an alarm on it
+                copy = make_copy(os.path.join(base, 'mut'))
+                apply_mutant(copy, m)
+                for pid in m['checks']:
+                    t0 = time.time()
+                    p = run_check_on(copy, pid, scale, base)
+                    quiet = p.returncode == 0 and 'VIOLATION' not in p.stdout
+                    print('%-6s %-34s %s -> %s (%.0fs)' % ('BENIGN', m['name'], pid, 'quiet' if quiet else 'ALARM exit %d' % p.returncode, time.time() - t0))
+                    if not quiet:
+                        print('   ' + '\n   '.join(ln[:300] for ln in p.stdout.splitlines() if 'clause=' in ln or 'HARNESS' in ln or 'VIOLATION' in ln)[:1500])
+                    results.append((m['name'] + '/' + pid, quiet))
+                shutil.rmtree(copy, ignore_errors=True)
                 continue
             copy = make_copy(os.path.join(base, 'mut'))
             apply_mutant(copy, m)
